@@ -70,8 +70,13 @@ def oracle(spec):
     return out
 
 
-def drv(text, spec):
-    lib = bibtexparser.parse_string(text)
+def drv(text, spec, copy_mode=False):
+    if copy_mode:
+        from bibtexparser.middlewares import ResolveStringReferencesMiddleware, RemoveEnclosingMiddleware
+        lib = bibtexparser.parse_string(text, parse_stack=[ResolveStringReferencesMiddleware(allow_inplace_modification=False),
+                                                           RemoveEnclosingMiddleware(allow_inplace_modification=False)])
+    else:
+        lib = bibtexparser.parse_string(text)
     return lib, oracle(spec)
 
 
@@ -97,9 +102,9 @@ def build(eng, shape):
             k = hole()
             fks = []
             for i in range(sh[1]):
-                lit(", ")
+                lit((", ", ",\n  ", ",")[i % 3])      # the layout around a repeated key must not matter
                 fks.append(hole())
-                lit(" = {v%d}" % i)
+                lit((" = {v%d}", "={v%d}", "\t=  {v%d}")[i % 3] % i)
             lit("}")     # an entry without fields is written '@x{K}' (no comma)
             spec.append(("entry", k, fks))
         elif sh[0] == "string":
@@ -113,7 +118,18 @@ def build(eng, shape):
     return mk(cs), spec
 
 
-def verdict(lib, spec, exp, E, truth):
+def same_block(a, b, E):
+    """structural equality of two entries / strings (copy-mode stacks hand out equal copies, not the same object)"""
+    if type(a) is not type(b):
+        return False
+    if isinstance(a, M.Entry):
+        return b_all([E(a.key, b.key), E(a.entry_type, b.entry_type), E([(f.key, f.value) for f in a.fields], [(f.key, f.value) for f in b.fields])])
+    if isinstance(a, M.String):
+        return b_and(E(a.key, b.key), E(a.value, b.value))
+    return a is b
+
+
+def verdict(lib, spec, exp, E, truth, copy_mode=False):
     """returns list of (condition-that-must-hold) ; conditions are bool/SBool"""
     conds = []
     blocks = lib.blocks
@@ -137,11 +153,13 @@ def verdict(lib, spec, exp, E, truth):
                     ok = E(b.key, sp[1])
             conds.append(ok)
         elif ex[0] == "dupkey":
-            ok = (isinstance(b, M.DuplicateBlockKeyBlock) and b.previous_block is blocks[ex[1]]
+            ok = (isinstance(b, M.DuplicateBlockKeyBlock) and (copy_mode or b.previous_block is blocks[ex[1]])
                   and isinstance(b.ignore_error_block, M.Entry if sp[0] == "entry" else M.String)
                   and not any(v is b or v is b.ignore_error_block for v in list(lib._entries_by_key.values()) + list(lib._strings_by_key.values())))
-            if ok:
-                ok = b_and(E(b.key, sp[1]), E(b.ignore_error_block.key, sp[1]))
+            if ok and copy_mode:
+                ok = same_block(b.previous_block, blocks[ex[1]], E)
+            if ok is not False:
+                ok = b_all([ok, E(b.key, sp[1]), E(b.ignore_error_block.key, sp[1])])
                 if sp[0] == "entry":
                     ok = b_and(ok, E([f.key for f in b.ignore_error_block.fields], sp[2]))
             conds.append(ok)
@@ -160,29 +178,28 @@ def verdict(lib, spec, exp, E, truth):
     return conds
 
 
-def native_run(text, spec_native):
+def native_run(text, spec_native, copy_mode=False):
     import logging
     logging.disable(logging.CRITICAL)
-    lib = bibtexparser.parse_string(text)
-    exp = oracle(spec_native)
+    lib, exp = drv(text, spec_native, copy_mode)
     E = lambda a, b: a == b
-    conds = verdict(lib, spec_native, exp, E, bool)
+    conds = verdict(lib, spec_native, exp, E, bool, copy_mode)
     return all(bool(c) for c in conds), [type(b).__name__ for b in lib.blocks], exp
 
 
-def task(shape, label):
+def task(shape, label, copy_mode=False):
     eng = Engine()
     rec = Recorder(eng)
     text, spec = build(eng, shape)
     E = eng.I.models.eq_simple
-    worlds = eng.run(drv, [text, spec])
+    worlds = eng.run(drv, [text, spec, copy_mode])
 
     def rp(m):
         t = eng.model_str(m, text)
         sn = eng.model_value(m, spec)
         sn = [tuple(x) for x in sn]
         try:
-            ok, kinds, exp = native_run(t, sn)
+            ok, kinds, exp = native_run(t, sn, copy_mode)
         except Exception as e:  # noqa
             return {"input": t, "observed": f"raised {type(e).__name__}: {e}", "expected": "blocks"}
         if ok:
@@ -194,7 +211,7 @@ def task(shape, label):
             rec.require(W, True, "no-exception", rp)
             continue
         lib, exp = W.result
-        conds = verdict(lib, spec, exp, E, None)
+        conds = verdict(lib, spec, exp, E, None, copy_mode)
         rec.require(W, b_not(b_all(conds)), "duplicates-flagged", rp)
         kinds = [e[0] for e in exp]
         if "dupkey" in kinds:
@@ -205,7 +222,7 @@ def task(shape, label):
             ok, m = eng.query(W, True)
             if ok:
                 t = eng.model_str(m, text)
-                rec.samples.append({"document": t, "expected": kinds, "native_ok": native_run(t, [tuple(x) for x in eng.model_value(m, spec)])[0]})
+                rec.samples.append({"document": t, "expected": kinds, "native_ok": native_run(t, [tuple(x) for x in eng.model_value(m, spec)], copy_mode)[0]})
                 rec.validated += 1
     return rec.result(label=label, worlds=len(worlds))
 
@@ -230,6 +247,8 @@ def main():
     for i, sh in enumerate(shapes):
         name = "+".join(s[0][0] + (str(s[1]) if len(s) > 1 else "") for s in sh)
         chk.add_task(f"{i:03d}-{name}", task, shape=sh, label=name)
+        # (copy-mode parse stacks are not part of this property: there previous_block is an equal-by-construction but
+        #  untransformed copy of the first block - see DESIGN §7; aliasing in copy mode is C07's subject)
     chk.run()
 
 
